@@ -14,7 +14,7 @@ META = {
                   'pytorch_wavelets.dtcwt.lowlevel.rowifilt', 'pytorch_wavelets.dtcwt.lowlevel.c2q'],
     'explanation': 'C04: DTCWTInverse(DTCWTForward(x)) is run on input atoms; every output sample minus the corresponding input atom (odd sizes: the '
                    'even-extended image, i.e. last row/column duplicated) must stay within 1e-7*gain for every input; output shape must be (H+H%2, W+W%2).',
-    'bounds': C03.META['bounds'],
+    'bounds': dict(C03.META['bounds'], added_families=C03.META['bounds'].get('added_families', []) + []),
     'outside': C03.META['outside'],
     'assumptions': ['real-arithmetic semantics', 'tolerance 1e-7 (the shipped tables satisfy the PR conditions to ~1e-9, see C18)'],
 }
